@@ -4,7 +4,12 @@
 (*   build   every string up to MaxLen over the matcher's own characters    *)
 (*           plus the hostile ones (exhaustive);                            *)
 (*   mutate  every single and double character substitution of the          *)
-(*           documented examples.                                           *)
+(*           documented examples;                                           *)
+(*   wide    every string of one or two characters, and every single        *)
+(*           substitution of the examples, over ALL printable ASCII plus    *)
+(*           the control and non-ASCII stand-ins: a loosened class, a stray *)
+(*           metacharacter or an unescaped dot admits some character that   *)
+(*           the narrow alphabets need not contain.                         *)
 (* Every generated string is emitted with the verdict of the documented     *)
 (* form; the harness asks the real regexp.                                  *)
 (***************************************************************************)
@@ -29,6 +34,11 @@ Alphabet(m) ==
     [] m = "NumberOrPercent" -> {"1", "0", "%", ".", "-", " "}
     [] m = "Paragraph" -> {"a", "7", " ", "LF", "'", "(", "BACKSLASH", "LETTER-CJK", ":", "@"}
 
+Punct == {" ", "!", "#", "$", "%", "&", "'", "(", ")", "*", "+", ",", "-", ".", "/", ":", ";", "<", "=", ">", "?", "@",
+          "[", "]", "^", "_", "`", "{", "|", "}", "~"}
+Wide  == Lower \cup Upper \cup Digit \cup Punct \cup
+         {"QUOTE", "BACKSLASH", "TAB", "LF", "FF", "CR", "NUL", "CTRL-1", "LETTER-E-ACUTE", "LETTER-CJK", "NUMBER-ARABIC-INDIC-3"}
+
 Str(w) == w
 Examples(m) ==
   CASE m = "CellAlign" -> CellAlignWords \cup {<<"L","e","f","T">>}
@@ -51,6 +61,8 @@ vars == <<m, s, mode, nsub>>
 
 Init == \/ m \in Matchers /\ s = <<>> /\ mode = "build" /\ nsub = 0
         \/ m \in Matchers /\ s \in Examples(m) /\ mode = "mutate" /\ nsub = 0
+        \/ m \in Matchers /\ s = <<>> /\ mode = "wide" /\ nsub = 0
+        \/ m \in Matchers /\ s \in Examples(m) /\ mode = "widemutate" /\ nsub = 0
 
 Next == \/ /\ mode = "build" /\ Len(s) < MaxLen
            /\ \E c \in Alphabet(m) : s' = Append(s, c)
@@ -58,10 +70,16 @@ Next == \/ /\ mode = "build" /\ Len(s) < MaxLen
         \/ /\ mode = "mutate" /\ nsub < Subst
            /\ \E i \in DOMAIN s, c \in Alphabet(m) : s' = [s EXCEPT ![i] = c]
            /\ nsub' = nsub + 1 /\ UNCHANGED <<m, mode>>
+        \/ /\ mode = "wide" /\ Len(s) < 2
+           /\ \E c \in Wide : s' = Append(s, c)
+           /\ UNCHANGED <<m, mode, nsub>>
+        \/ /\ mode = "widemutate" /\ nsub < 1
+           /\ \E i \in DOMAIN s, c \in Wide : s' = [s EXCEPT ![i] = c]
+           /\ nsub' = nsub + 1 /\ UNCHANGED <<m, mode>>
 
 Spec == Init /\ [][Next]_vars
 
-IsExample == mode = "mutate" /\ nsub = 0
+IsExample == mode \in {"mutate", "widemutate"} /\ nsub = 0
 EmitCase == Emit => PrintT(<<"CASE", ToJson([m |-> m, s |-> s, doc |-> DocForm(m, s), ex |-> IsExample])>>)
 
 \* the documented forms are themselves closed, anchored recognisers; the examples are in documented form
